@@ -215,13 +215,13 @@ type ev12Case struct {
 	// seq: PID value p < 50 is the local recording actor a/p, p >= 50 is the
 	// same id a/(p-50) behind a foreign address (only with remote: the engine
 	// then has an in-memory Remoter that records what it is given)
-	NPids  int     `json:"npids"`
-	Remote bool    `json:"remote"`
+	NPids  int  `json:"npids"`
+	Remote bool `json:"remote"`
 	// look: the foreign twin of a/k is not (foreignAddr, a/k) but a PID whose address
 	// followed by its id spells the same string as the local one: different in both
 	// fields, and still a different PID
 	Look bool    `json:"look"`
-	Hist   [][]any `json:"hist"` // ["sub", pid, obj] | ["unsub", pid, obj] | ["ev", n] | ["stop", pid] | ["respawn", pid]
+	Hist [][]any `json:"hist"` // ["sub", pid, obj] | ["unsub", pid, obj] | ["ev", n] | ["stop", pid] | ["respawn", pid]
 	// conc
 	NSubs      int   `json:"nsubs"`
 	Counts     []int `json:"counts"`
